@@ -327,7 +327,9 @@ fn run_inner(tape: &mut Tape) -> CaseOutcome {
   }
   let label = *tape.pick(Stream::World, &LABELS);
   let remote = media == 4 || tape.draw(Stream::World, 2) == 1;
-  let label = if remote && media != 4 { label } else { None };
+  // a local module may come with headers too (the loader interface allows
+  // it); without a label a local module is BOM-sniffed
+  let label = if media != 4 { label } else { None };
   let mut w = World::default();
   let (url, ext) = match media {
     0 => ("m.js", "text/javascript"),
@@ -393,7 +395,7 @@ fn run_inner(tape: &mut Tape) -> CaseOutcome {
     w.roots.push(format!("{}main.ts", H_FILE));
   } else {
     let mut headers = vec![];
-    if remote {
+    if remote || label.is_some() {
       let ct = match label {
         Some(l) => format!("{}; charset={}", ext, l),
         None => ext.to_string(),
